@@ -25,7 +25,9 @@ RULE = (
     "case = generated schema x valid document x variables; every resolver return value is drawn *during execution* "
     "from a type-aware mixture (about half well-typed, half from an adversarial universe: wrong kinds, boundary ints, "
     "NaN/inf/huge floats, numeric strings, bytes, tuples/sets/generators, Decimal/Fraction, attribute objects, exception "
-    "instances and classes, unknown/foreign runtime types), also for list items and abstract values. Oracle = validity "
+    "instances and classes, unknown/foreign runtime types), also for list items and abstract values; in half of the cases harness "
+    "type resolvers (field / type / engine level) answer adversarially per call (any type name, schema type objects of possible, "
+    "impossible and non-object types, garbage); per-field concurrency overrides. Oracle = validity "
     "predicate: execute returns, response is strict-JSON serialisable, non-null data has exactly the collected response keys "
     "(in order) for some possible runtime type, lists where declared, no null at non-null, leaves of the declared wire "
     "kind, every null where the resolver returned a value is covered by an error at or below it. Distinct = SHA-1 of the "
